@@ -15,6 +15,8 @@ TRUSTED = ["CPython ast", "CPython re._parser", "fxlint.regexlang subset constru
 
 def run(ck):
     dtype.language_rules(ck, "C12.R1", "C12.R2")
+    dtype.case_insensitive_groups(ck, "C12.R1")
     dtype.entry_points(ck, "C12.R3")
+    dtype.refresh_after_store(ck, "C12.R5")
     dtype.notation_parameter(ck, "C12.R4")
     sizes.resize_rules(ck, {"refresh": "C02.R5"})
